@@ -153,8 +153,8 @@ def gen_cases(tier, seed, M):
             cm.append([n, 1])
         common[n] = [list(x) for x in dict.fromkeys(tuple(s) for s in cm)]
     # --- circuits
-    ncirc = 48 if quick else 700
-    nstab = 40 if quick else 500
+    ncirc = 48 if quick else 400
+    nstab = 40 if quick else 300
     ns = [1, 2, 2, 3, 3, 3, 4, 4, 4] + ([] if quick else [5])
     for i in range(ncirc):
         n = rng.choice(ns)
@@ -198,7 +198,7 @@ def gen_cases(tier, seed, M):
     for c, d in pairs:
         cases.append(diag(2, 2, c, d))
     nd_exh = len(cases)
-    for _ in range(70 if quick else 1500):
+    for _ in range(70 if quick else 800):
         n = rng.choice([2, 3, 3, 4] + ([] if quick else [5]))
         k = rng.choice([3, 4, 5])
         c = random_composition(rng, 1 << k, 1 << n)
@@ -728,19 +728,19 @@ def run(tier, seed):
             continue
         if c["kind"] == "circ":
             # jax compiles every new (function, shape, index list): keep it to a subset of the cases in the quick tier
-            ifs = (IFACES if ci % (16 if quick else 8) == 0 else NOJAX) if ci % 4 == 0 else ["numpy"] if quick else ["numpy", NOJAX[1 + ci % 2]]
+            ifs = (IFACES if ci % (24 if quick else 8) == 0 else NOJAX) if ci % 4 == 0 else ["numpy"] if quick else ["numpy", NOJAX[1 + ci % 2]]
             eval_circ(ctx, c, o, ifs, ci)
             counts["stab" if c["stab"] else "circ"] += 1
         elif c["kind"] == "diag":
-            ifs = (IFACES if ci % 40 == 0 else NOJAX) if ci % 10 == 0 else ["numpy"]
+            ifs = (IFACES if ci % (100 if quick else 40) == 0 else NOJAX) if ci % 10 == 0 else ["numpy"]
             eval_diag(ctx, c, o, ifs, ci, rng)
             counts["diag"] += 1
         else:
             groups.setdefault((c["n"], tuple(c["ws"])), []).append((c, o))
             counts["expand"] += 1
     for gi, (key, grp) in enumerate(sorted(groups.items())):
-        eval_expand(ctx, grp, (IFACES if gi % 9 == 0 else NOJAX) if gi % 3 == 0 else ["numpy", NOJAX[1 + gi % 2]])
-    nbatched = eval_batched(ctx, cases, outs, common, IFACES, jax_n=(2, 3) if quick else (1, 2, 3, 4, 5))
+        eval_expand(ctx, grp, (IFACES if gi % 18 == 0 else NOJAX) if gi % 3 == 0 else ["numpy", NOJAX[1 + gi % 2]])
+    nbatched = eval_batched(ctx, cases, outs, common, IFACES, jax_n=(2,) if quick else (1, 2, 3, 4, 5))
     nrandom = random_states_bounds(ctx, rng, tier)
     # vacuity
     stab_ent = [e for c, o in zip(cases, outs) if c["kind"] == "circ" and c["stab"] and not o["skip"] for e in o["ent"]]
